@@ -713,7 +713,9 @@ def glue_ok(a, b):
 
 COMMENT_WORDS = [b'c', b'note', b'x=1', b'end', b'"q', b'[[', b']]', b'todo: fix', b'\x8e\x97', b'if (a) b', b'--', b'',
                  # backslash sequences (commented-out code, paths); the editor's tab separator `-->8`
-                 b'print("a\\n")', b'c:\\pico\\x', b'\\1 \\g<0>', b'>8', b'>8 tab']
+                 b'print("a\\n")', b'c:\\pico\\x', b'\\1 \\g<0>', b'>8', b'>8 tab',
+                 # raw vertical tab / form feed (P8SCII 11, 12: ordinary characters, but line ends to str.splitlines)
+                 b'a\x0bx=1', b'\x0c y=2 z()']
 
 
 def line_comment(ch):
